@@ -72,14 +72,41 @@ def keyset(ctx, fi: FuncInfo, e: ast.expr, within: Optional[set[str]] = None, de
 _NO = object()
 
 
+def invariant_helper_call(ctx):
+    """the call in graph_from_molecule whose callee (closure) writes the invariant-code attribute"""
+    fi = ctx.repo.func("tucan.graph_utils.graph_from_molecule")
+    inv_key = ctx.repo.const("tucan.graph_attributes", "INVARIANT_CODE")
+    for cs in sites(ctx, fi):
+        if cs.kind != "tucan":
+            continue
+        fns = [cs.target] + [ctx.cg.funcs[q] for q in ctx.cg.closure([cs.target.fq])]
+        for f in fns:
+            for n in ast.walk(f.node):
+                if (isinstance(n, ast.Name) and ctx.repo.try_const(f.module, n.id, None) == inv_key and n.id not in params_of(f.node)) or \
+                        (isinstance(n, ast.Constant) and n.value == inv_key):
+                    return cs
+    return None
+
+
+def serializer_writers(ctx) -> list:
+    """the functions of the serializer that produce a section of the string: declared to return str (or named _write*)"""
+    from ..model import annotation_name
+    ser = entry(ctx, "serialize")
+    out = []
+    for f in closure(ctx, "serialize"):
+        if f.fq == ser.fq or f.cls is not None:
+            continue
+        ret = annotation_name(f.node.returns) or ""
+        if f.module.name == ser.module.name and (ret == "str" or f.name.startswith("_write")):
+            out.append(f)
+    return out
+
+
 def invariant_definitions(ctx) -> tuple[FuncInfo, list[tuple[str, object]], ast.AST]:
     """[(key, default)] of the invariant code, resolved from graph_from_molecule"""
     fi = ctx.repo.func("tucan.graph_utils.graph_from_molecule")
     # find the call that computes the invariant code and the list passed to it
-    target = None
-    for cs in sites(ctx, fi):
-        if cs.kind == "tucan" and "invariant" in cs.target.name:
-            target = cs
+    target = invariant_helper_call(ctx)
     if target is None:
         raise AnalysisError("graph_from_molecule no longer calls the invariant-code helper (anchor vanished)")
     if len(target.node.args) < 2:
@@ -222,10 +249,7 @@ def _check_invariant_helper(ctx, res: RuleResult):
     repo = ctx.repo
     inv_key = repo.const("tucan.graph_attributes", "INVARIANT_CODE")
     gfm = repo.func("tucan.graph_utils.graph_from_molecule")
-    target = None
-    for cs in sites(ctx, gfm):
-        if cs.kind == "tucan" and "invariant" in cs.target.name:
-            target = cs
+    target = invariant_helper_call(ctx)
     if target is None or len(target.node.args) < 2:
         raise AnalysisError("invariant-code helper vanished")
     fi = target.target
@@ -510,11 +534,12 @@ def r_codec(ctx) -> RuleResult:
     # ---- serializer: writers receive the graph numbered by sort_molecule_by_attribute(.., ATOMIC_NUMBER)
     ser = entry(ctx, "serialize")
     sortf = ctx.repo.find_func("tucan.graph_utils.sort_molecule_by_attribute")
-    writer_calls = [cs for cs in sites(ctx, ser) if cs.kind == "tucan" and cs.target.name.startswith("_write")]
+    wfq = {f.fq for f in serializer_writers(ctx)}
+    writer_calls = [cs for cs in sites(ctx, ser) if cs.kind == "tucan" and cs.target.fq in wfq and cs.node.args]
     if not writer_calls:
         # writers reached through a table / loop variable: the argument of every call of a non-tucan callee in the serializer
         # that receives a local graph stands for them
-        reach = [q for q in ctx.cg.closure([ser.fq]) if ctx.cg.funcs[q].name.startswith("_write")]
+        reach = [q for q in ctx.cg.closure([ser.fq]) if q in wfq]
         if not reach:
             raise AnalysisError("serialize_molecule calls no _write_* helper (anchor vanished)")
         writer_calls = [cs for cs in sites(ctx, ser) if cs.kind in ("unknown", "param", "method") and cs.node.args and isinstance(cs.node.args[0], ast.Name)
@@ -615,7 +640,7 @@ def _check_sort_relabel(ctx, fi: FuncInfo, res: RuleResult):
 def _check_emitters(ctx, res: RuleResult):
     """in the string-writing functions of the serializer: every formatted node label is `label + 1`;
     iterations over edges / nodes are unfiltered (except: attribute present, no attribute at all)"""
-    writers = [f for f in closure(ctx, "serialize") if f.name.startswith("_write")]
+    writers = serializer_writers(ctx)
     n_emit = 0
     for fi in writers:
         fn = fi.node
